@@ -372,4 +372,18 @@ MUTANTS = {
     "to_objective_table_extended": {
         "props": ["C20"], "what": "equalized odds silently accepts selection_rate as objective",
         "edits": [(TO, 'OBJECTIVES_FOR_EQUALIZED_ODDS = {\n    "accuracy_score",', 'OBJECTIVES_FOR_EQUALIZED_ODDS = {\n    "selection_rate",\n    "accuracy_score",')]},
+    # ---------------------------------------------------------------- reverts of the later fixes
+    "rev_fix_dummy_sample_weight_name": {
+        "props": ["C09", "C08"], "what": "revert fix 7d64327: DummyClassifier fallback fitted with the user's sample_weight_name",
+        "edits": [(GS, "                sample_weight_name = \"sample_weight\"\n", "                pass\n"),
+                  (LAG, "            sample_weight_name = \"sample_weight\"\n", "            pass\n")]},
+    "rev_fix_error_rate_parity_uint8": {
+        "props": ["C06"], "what": "revert fix 1283ce5: ErrorRateParity utilities built in the labels' own dtype",
+        "edits": [(UP, "        utilities = np.vstack([y_float, 1 - y_float]).T", "        utilities = np.vstack([y_train, 1 - y_train]).T")]},
+    "rev_fix_gamma_series_alignment": {
+        "props": ["C06", "C12"], "what": "revert fix eb0813d (parity moments): a pandas prediction is aligned by index label",
+        "edits": [(UP, "        predictions = np.squeeze(np.asarray(predictor(self.X)))", "        predictions = predictor(self.X)\n        if isinstance(predictions, np.ndarray):\n            predictions = np.squeeze(predictions)")]},
+    "rev_fix_eg_series_alignment": {
+        "props": ["C10", "C12"], "what": "revert fix 7222c70: EG._pmf_predict aligns a pandas-aware estimator's output by index label",
+        "edits": [(EG, "                pred[t] = np.asarray(self._hs[t](X))", "                pred[t] = self._hs[t](X)")]},
 }
